@@ -280,16 +280,11 @@ def make_params(case):
 _CONTENT_CACHE = {}
 
 
-def classify_content(path):
-    """What a file holds: ["empty"] | ["torn"] | ["model", w, digest] | ["optim", tag, lr, digest] (digest of
-    the canonical picture of the whole state dict). Cached by the bytes."""
+def classify_bytes(data):
+    """What a file with these bytes holds: ["empty"] | ["torn"] | ["model", w, digest] | ["optim", tag, lr, digest]
+    (digest of the canonical picture of the whole state dict). Cached by the bytes."""
     import io
     import torch
-    try:
-        with open(path, "rb") as f:
-            data = f.read()
-    except OSError:
-        return ["missing"]
     if not data:
         return ["empty"]
     if data not in _CONTENT_CACHE:
@@ -312,73 +307,216 @@ def classify_content(path):
     return list(_CONTENT_CACHE[data])
 
 
+def classify_content(path):
+    try:
+        with open(path, "rb") as f:
+            data = f.read()
+    except OSError:
+        return ["missing"]
+    return classify_bytes(data)
+
+
 def snapshot(case, n, state_dir, csv_path):
-    """Canonical picture of the disk: named checkpoint files by key, temp files as a sorted list of
-    contents, history file as absent / list of line kinds."""
+    """Canonical picture of the disk: checkpoint files (a name one of the two formats gives to an epoch
+    0..n+1) by key, every OTHER file below the state directory — whatever its name and whoever created it — as a
+    temp file (sorted list of contents; `tmp_names`: their names), history file as absent / list of line kinds."""
     mn, on = names(case, n)
     mk, ok = keys_of(mn), keys_of(on)
     files, tmps, other = [], [], []
     if os.path.isdir(state_dir):
-        for f in sorted(os.listdir(state_dir)):
+        # every file below the state directory (a format may have a directory part: "m/{epoch}.pt"), named by
+        # its path relative to it; directories themselves are not state
+        rel = []
+        for root, _, fs in os.walk(state_dir):
+            rel.extend(os.path.relpath(os.path.join(root, f), state_dir) for f in fs)
+        for f in sorted(rel):
             p = os.path.join(state_dir, f)
             c = classify_content(p)
             if f in mn:
                 files.append(["model", mk[mn.index(f)], c])
             elif f in on:
                 files.append(["optim", ok[on.index(f)], c])
-            elif f.startswith("tmp"):
-                tmps.append(c)
             else:
-                other.append(f)
+                tmps.append((c, f))
     csv = None
     if os.path.exists(csv_path):
         with open(csv_path, newline="") as f:
             text = f.read()
         csv = line_kinds(text)
-    return {"files": sorted(files), "tmps": sorted(tmps, key=repr), "other": other, "csv": csv}
+    tmps.sort(key=lambda x: repr(x[0]))
+    return {"files": sorted(files), "tmps": [c for c, _ in tmps], "tmp_names": [f for _, f in tmps],
+            "other": other, "csv": csv}
 
 
-def abstract_trace(case, n, state_dir, csv_path, ops):
-    """Mutating calls -> the model's vocabulary."""
+NOOP_EVENTS = ("mkdir", "open", "meta")
+
+
+def is_header_line(data):
+    if isinstance(data, (bytes, bytearray)):
+        return bytes(data).startswith(b"epoch,")
+    return isinstance(data, str) and data.startswith("epoch,")
+
+
+def _line_kind(line):
+    body = line.rstrip("\r\n")
+    first = body.split(",")[0]
+    if first == "epoch":
+        return "header"
+    try:
+        return int(first)
+    except ValueError:
+        return "junk"
+
+
+def abstract_trace(case, n, state_dir, csv_path, events, crashed=False, after=()):
+    """File-system events of ONE update (c16_fs) -> the state changes they make, in the model's vocabulary:
+
+      ["mktemp", i]                       a file that is not a checkpoint name appears in the state directory
+      ["write", "tmp", i]                 it receives its content (all writes to it together are ONE change)
+      ["replace", "tmp", i, kind, key]    it is renamed onto the checkpoint path `kind` (model|optim) of key
+      ["open_a"]                          the history file is created
+      ["hwrite", "header" | epoch]        a complete line is appended to the history file (one entry per
+                                          line, however many write() calls / lines per call it took)
+      ["remove", kind, key]               a checkpoint file is removed
+      ["?", ...]                          anything else (the model has no word for it)
+
+    Events that change nothing (mkdir of the state directory, open of an existing file without truncation,
+    chmod, zero-length writes) are counted (`noops`) and dropped. Temp file ids say what the file is FOR, not
+    which API or name it got: 0 = it receives / is renamed as the model's state dict, 1 = the optimizer's
+    (undetermined ones: in order of creation). `crashed`: the process died in this update -> `torn` = the
+    change it died in the middle of (a temp file whose content is not a complete state dict, a history line
+    without its end), else None.
+    `after`: the events made while the interrupt that killed the process unwound (soft deaths) -> "after": the
+    same vocabulary + ["remove", "tmp", i] (a temp file of THIS update removed again).
+    -> {"ops": [...], "torn": op | None, "after": [...], "noops": int, "events": [kind, ...]}"""
     mn, on = names(case, n)
     mk, ok = keys_of(mn), keys_of(on)
-    tmp_ids = {}
+    sd, cp = os.path.abspath(state_dir), os.path.abspath(csv_path)
 
-    def pth(p):
-        d, b = os.path.split(p)
-        if os.path.abspath(p) == os.path.abspath(csv_path):
+    def where(p):
+        if p == cp:
             return ["csv"]
-        if os.path.abspath(d) == os.path.abspath(state_dir):
+        if p.startswith(sd + os.sep):
+            b = os.path.relpath(p, sd)
             if b in mn:
                 return ["model", mk[mn.index(b)]]
             if b in on:
                 return ["optim", ok[on.index(b)]]
-            if p in tmp_ids:
-                return ["tmp", tmp_ids[p]]
-        return ["?", p]
+            return ["tmp", p]
+        return ["?", os.path.relpath(p, os.path.dirname(sd))]
 
-    out = []
-    for op in ops:
-        kind = op[0]
-        if kind == "mkdirs":
-            out.append(["mkdirs"])
-        elif kind == "mktemp":
-            if len(op) > 2:
-                tmp_ids[op[2]] = len(tmp_ids)
-            out.append(["mktemp", len(tmp_ids) - 1 if len(op) > 2 else len(tmp_ids)])
+    order, chunks, role, replaced = [], {}, {}, set()
+    out, pend, noops, kinds = [], "", 0, []
+
+    def ref(p):
+        w = where(p)
+        if w[0] == "tmp":
+            return ["tmp", ("T", p)] if p in order else ["?", os.path.basename(p)]
+        return w
+
+    n_main = len(events)
+    mark = None
+    for j, ev in enumerate(list(events) + list(after)):
+        kind = ev[0]
+        if j == n_main:
+            mark = len(out)
+        if j < n_main:
+            kinds.append("write_header" if kind == "write" and is_header_line(ev[2]) else kind)
+        if kind in NOOP_EVENTS:
+            noops += 1
+        elif kind == "create":
+            w = where(ev[1])
+            if w == ["csv"]:
+                out.append(["open_a"])
+            elif w[0] == "tmp":
+                order.append(ev[1])
+                out.append(["mktemp", ("T", ev[1])])
+            else:
+                out.append(["?", "create"] + w)
         elif kind == "write":
-            out.append(["write"] + pth(op[1]))
+            w, data = where(ev[1]), ev[2]
+            if w == ["csv"]:
+                if data is None:
+                    out.append(["?", "write", "csv"])
+                    continue
+                pend += data if isinstance(data, str) else bytes(data).decode("utf-8", "replace")
+                while "\n" in pend:
+                    line, pend = pend.split("\n", 1)
+                    out.append(["hwrite", _line_kind(line)])
+            elif w[0] == "tmp" and ev[1] in order:
+                if ev[1] not in chunks:
+                    out.append(["write", "tmp", ("T", ev[1])])
+                chunks.setdefault(ev[1], []).append(data)
+            else:
+                out.append(["?", "write"] + (w if w[0] != "tmp" else ["tmp", os.path.basename(ev[1])]))
         elif kind == "replace":
-            out.append(["replace"] + pth(op[1]) + pth(op[2]))
+            src, dst = ref(ev[1]), where(ev[2])
+            if src[0] == "tmp" and dst[0] in ("model", "optim"):
+                replaced.add(ev[1])
+                role.setdefault(ev[1], 0 if dst[0] == "model" else 1)
+                out.append(["replace"] + src + dst)
+            else:
+                out.append(["?", "replace"] + src + (dst if dst[0] != "tmp" else ["tmp", os.path.basename(ev[2])]))
         elif kind == "remove":
-            out.append(["remove"] + pth(op[1]))
-        elif kind == "open_a":
-            out.append(["open_a"])
-        elif kind == "hwrite":
-            ls = line_kinds(op[2])
-            out.append(["hwrite", ls[0]] if len(ls) == 1 else ["hwrite", ls])
+            w = where(ev[1])
+            if w[0] in ("model", "optim"):
+                out.append(["remove"] + w)
+            elif w[0] == "tmp" and ev[1] in order:
+                out.append(["remove", "tmp", ("T", ev[1])])
+            else:
+                out.append(["?", "remove"] + ref(ev[1]))
         else:
-            out.append(["?"] + [str(x) for x in op])
+            out.append(["?"] + [str(x) if not isinstance(x, str) else os.path.basename(x) for x in ev[:3]])
+    # what every temp file holds (all the bytes written to it), hence what it is for and whether it is complete
+    incomplete = set()
+    for p, cs in chunks.items():
+        c = classify_content(p) if any(x is None for x in cs) else classify_bytes(b"".join(bytes(x) if not isinstance(x, str) else x.encode() for x in cs))
+        if c[0] == "model":
+            role.setdefault(p, 0)
+        elif c[0] == "optim":
+            role.setdefault(p, 1)
+        elif p not in replaced or c[0] != "missing":
+            incomplete.add(p)
+    free = [i for i in range(len(order) + 2) if i not in role.values()]
+    seen = set()
+    for p in order:
+        if p not in role or role[p] in seen:
+            role[p] = free.pop(0)
+        seen.add(role[p])
+
+    def fin(op):
+        op = [role[x[1]] if isinstance(x, tuple) else x for x in op]
+        return op
+    torn = None
+    ops = []
+    if mark is None:
+        mark = len(out)
+    aft = [fin(op) for op in out[mark:]]
+    out = out[:mark]
+    for i, op in enumerate(out):
+        p = next((x[1] for x in op if isinstance(x, tuple)), None)
+        o = fin(op)
+        if op[0] == "write" and p in incomplete:
+            if crashed and i == len(out) - 1 and not pend:
+                torn = o + ["torn"]
+                continue
+            o = o + ["torn"]
+        ops.append(o)
+    if pend:
+        if crashed and torn is None:
+            torn = ["hwrite", "torn"]
+        else:
+            ops.append(["hwrite", "torn"])
+    return {"ops": ops, "torn": torn, "after": aft, "noops": noops, "events": kinds}
+
+
+def effective_events(evs):
+    """Events that change something, for a message: [kind, base names...]."""
+    out = []
+    for ev in evs:
+        if ev[0] in NOOP_EVENTS:
+            continue
+        out.append([ev[0]] + [os.path.basename(x) for x in ev[1:3] if isinstance(x, str) and os.sep in x])
     return out
 
 
@@ -445,8 +583,13 @@ def session(case, ws, crash=None, record=None, ref=None):
     import warnings
     vals = case["vals"]
     n = len(vals)
-    tr = Tracer()
+    tr = Tracer(root=ws.base)
+    tr.atomic = is_header_line      # a torn header line is not modelled (see the design note)
+    tr.line_paths = {os.path.abspath(ws.csv)}   # a history line reaches the file whole (or torn on purpose)
     out = {"crashed": False}
+
+    def trace_of(crashed):
+        return abstract_trace(case, n, ws.state_dir, ws.csv, tr.ops, crashed, tr.after if crashed else ())
     with warnings.catch_warnings():
         warnings.simplefilter("ignore")
         with instrumented(tr) as training:
@@ -494,22 +637,22 @@ def session(case, ws, crash=None, record=None, ref=None):
                 except Crash:
                     out["crashed"] = True
                     out["crash_epoch"] = e
-                    out["trace"] = abstract_trace(case, n, ws.state_dir, ws.csv, tr.ops)
+                    out["trace"] = trace_of(True)
                     break
                 except Exception as ex:
                     if tr.dead:
                         out["crashed"] = True
                         out["crash_epoch"] = e
-                        out["trace"] = abstract_trace(case, n, ws.state_dir, ws.csv, tr.ops)
+                        out["trace"] = trace_of(True)
                         out["masked_by"] = type(ex).__name__
                         break
                     out["update_error"] = [e, type(ex).__name__]
-                    out["trace"] = abstract_trace(case, n, ws.state_dir, ws.csv, tr.ops)
+                    out["trace"] = trace_of(False)
                     break
                 finally:
                     tr.disarm()
                 if record is not None:
-                    r = {"epoch": e, "trace": abstract_trace(case, n, ws.state_dir, ws.csv, tr.ops),
+                    r = {"epoch": e, "trace": trace_of(False),
                          "disk": snapshot(case, n, ws.state_dir, ws.csv),
                          "mem": list(get_state(m, o)), "row_lr": ctrl.get_info(e)["lr"]}
                     if ref is None:
@@ -521,12 +664,9 @@ def session(case, ws, crash=None, record=None, ref=None):
             out["final_state"] = list(get_state(m, o))
             if ref is not None and not out["crashed"] and "update_error" not in out:
                 out["final_diff"] = diff_vs_ref(full_state(m, o), ref, e)
-    if tr.unexpected:
-        out["unexpected_mutators"] = sorted(set(tr.unexpected))
-    if tr.idle:
-        out["idle_ops"] = [op[:1] + [os.path.basename(x) for x in op[1:]] for op in tr.idle[:6]]
-    if tr.after:
-        out["after_ops"] = [op[:1] + [os.path.basename(x) for x in op[1:]] for op in tr.after[:6]]
+    idle = effective_events(tr.idle)
+    if idle:
+        out["idle_ops"] = idle[:6]
     return out
 
 
